@@ -82,6 +82,76 @@ def run_history(kind, hist, n, parallel=False):
     return out
 
 
+def run_solver_history(hist, n, parallel=False):
+    """ONE AnalogSimParams object served by different back-ends: hist = [(solver, noisy), ...]; per run (calls, num_traj after, rows)."""
+    import mqt.yaqs.simulator as S
+    from mqt.yaqs.core.data_structures.networks import MPO, MPS
+    from mqt.yaqs.core.data_structures.noise_model import NoiseModel
+    from mqt.yaqs.core.data_structures.simulation_parameters import AnalogSimParams, Observable
+
+    from drivers.C13 import Sched
+
+    nm_on = NoiseModel([{"name": "pauli_x", "sites": [0], "strength": 0.1}])
+    saved = (S.analog_tjm_1, S.analog_tjm_2, S.mcwf, S.lindblad, S.preprocess_mcwf, S.ProcessPoolExecutor, S.wait, S.available_cpus)
+    p = AnalogSimParams([Observable("z", 0)], elapsed_time=0.2, dt=0.1, num_traj=n, show_progress=False)
+    out = []
+    try:
+        for solver, noisy in hist:
+            calls = []
+
+            def stub(args, p=p):
+                calls.append(args[0])
+                return np.array([np.full(o.trajectories.shape[1:], 1.0) for o in p.sorted_observables])
+
+            S.analog_tjm_1 = S.analog_tjm_2 = S.mcwf = S.lindblad = stub
+            S.preprocess_mcwf = lambda *a, **k: "ctx"
+            if parallel:
+                sched = Sched([(0, "Ok")] * (4 * n + 8))
+                S.ProcessPoolExecutor, S.wait = sched.executor, sched.wait
+                S.available_cpus = lambda: 3
+            p.solver = solver
+            S._run_analog(MPS(2), MPO.ising(2, 1, 0.5), p, nm_on if noisy else None, parallel=parallel)  # noqa: SLF001
+            out.append((len(calls), int(p.num_traj), int(p.observables[0].trajectories.shape[0])))
+    finally:
+        S.analog_tjm_1, S.analog_tjm_2, S.mcwf, S.lindblad, S.preprocess_mcwf, S.ProcessPoolExecutor, S.wait, S.available_cpus = saved
+    return out
+
+
+def solver_history_correspondence(ctx):
+    cases = [([("Lindblad", False), ("TJM", True)], 6, False), ([("Lindblad", True), ("MCWF", True), ("TJM", False), ("TJM", True)], 4, False)]
+    for _ in range(ctx.scale(16, 200)):
+        hist = [(str(ctx.rng.choice(["TJM", "MCWF", "Lindblad"])), bool(ctx.rng.integers(0, 2))) for _ in range(int(ctx.rng.integers(1, 5)))]
+        cases.append((hist, int(ctx.rng.integers(2, 8)), bool(ctx.rng.random() < 0.3)))
+    exprs, impl = [], []
+    for hist, n, par in cases:
+        try:
+            impl.append(run_solver_history(hist, n, par))
+        except Exception as e:  # noqa: BLE001
+            impl.append(f"EXC:{type(e).__name__}:{e}")
+        runs = []
+        for k in range(len(hist)):
+            pre = g_list([f"({s_}, {g_bool(b)})" for s_, b in hist[:k]])
+            runs.append(f"let r := run_analog {hist[k][0]} {g_bool(hist[k][1])} (analog_history {pre} {{| num_traj := {g_nat(n)}; traj_rows := 0%nat |}}) in "
+                        f"(snd r, num_traj (fst r), traj_rows (fst r))")
+        exprs.append("[" + "; ".join(runs) + "]")
+    vals = common.coq_eval_sharded(HEADER, exprs, tag="c20s")
+    for (hist, n, par), i, v in zip(cases, impl, vals):
+        ctx.case(nontrivial_key=("solvers", tuple(hist), n, par) if len({s_ for s_, _ in hist}) > 1 else None, validated=True,
+                 sample={"history(solver,noisy)": hist, "num_traj": n, "per_run(calls,param,rows)": i} if len(hist) > 2 and len(ctx.samples) < 8 else None)
+        ctx.count("solver_histories")
+        mv = [tuple(x) for x in v]
+        if i != mv:
+            ctx.mismatch("analog front-end over a history of back-ends vs Params.run_analog", {"history": hist, "n": n, "parallel": par}, i, mv, key="solver-history")
+        if isinstance(i, list):
+            for k, (calls, after, rows) in enumerate(i):
+                want = 1 if (hist[k][0] == "Lindblad" or not hist[k][1]) else n
+                if calls != want or after != n:
+                    ctx.violation("history:solvers", f"analog run {k + 1} of history {hist} on one parameter object executed {calls} trajectories and left "
+                                  f"num_traj={after}; a fresh object executes {want} and keeps num_traj={n}",
+                                  {"oracle": "solver-history", "hist": [list(h) for h in hist], "n": n, "parallel": par})
+                    break
+
+
 def model_exprs(kind, hist, n):
     exprs = []
     for k in range(len(hist)):
@@ -101,6 +171,7 @@ def correspond(ctx):
     from drivers import C16
 
     C16.history_correspondence(ctx)
+    solver_history_correspondence(ctx)
     cases = []
     for kind in ("strong", "analog", "weak"):
         for hist in ([False, True], [True, False], [True, False, True], [False, False, True, True], [True], [False]):
@@ -350,6 +421,14 @@ def replay(ctx, data):
     rp = data.get("replay", data)
     if rp.get("oracle") == "pool":
         return pool_oracle(rp["args"])
+    if rp.get("oracle") == "solver-history":
+        hist = [tuple(h) for h in rp["hist"]]
+        r = run_solver_history(hist, rp["n"], rp.get("parallel", False))
+        for k, (calls, after, rows) in enumerate(r):
+            want = 1 if (hist[k][0] == "Lindblad" or not hist[k][1]) else rp["n"]
+            if calls != want or after != rp["n"]:
+                return f"run {k + 1}: executed {calls} (fresh object: {want}), num_traj afterwards {after} (requested {rp['n']})"
+        return None
     if rp.get("oracle") == "real":
         return real_oracle(rp["args"])
     if rp.get("oracle") == "history":
